@@ -61,6 +61,17 @@ pub fn runs_per_program(prop: &str, tier: &str) -> u64 {
 pub fn gen_entry(prop: &str, seed: u64, idx: usize, attempt: u64) -> Vec<(String, Program)> {
     let mut sim = Sim::seeded(mix(&[seed, fnv_str("e3_ticksim/corpus"), fnv_str(prop), idx as u64, attempt]));
     match prop {
+        // systematic slice: every stateful operator x persistence on the push AND the pull side
+        "C21" if idx % 6 == 2 => vec![("base".to_string(), e3_core::pgen::gen_both_sides(&mut sim, idx / 6, 3))],
+        "C22" if idx % 4 == 2 => {
+            let base = e3_core::pgen::gen_both_sides(&mut sim, idx / 4, 3);
+            let mut v = vec![("base".to_string(), base.clone())];
+            for k in 0..2 {
+                let (name, p) = variants::variant(&base, &mut sim, k);
+                v.push((name, p));
+            }
+            v
+        }
         // 1 program in 8 of the C22 corpus: *_no_replay operators pull- vs push-side, compared pairwise
         "C22" if idx % 8 == 5 => e3_core::pgen::gen_no_replay_pair(&mut sim, (idx / 8) % 2 == 0),
         "C22" => {
@@ -73,7 +84,19 @@ pub fn gen_entry(prop: &str, seed: u64, idx: usize, attempt: u64) -> Vec<(String
             }
             v
         }
-        "C23" => vec![("base".to_string(), e3_core::pgen::gen_blocking(&mut sim))],
+        "C23" => {
+            let mut p = e3_core::pgen::gen_blocking(&mut sim);
+            // reference programs: vary the textual order of borrower, producer and pipe consumer
+            if p.nodes.iter().any(|n| matches!(n.op, e3_core::ast::Op::RefMap { .. })) {
+                let n = p.emit_order.len();
+                for i in (1..n).rev() {
+                    let j = sim.choose("shuffle", 0, i as u64) as usize;
+                    p.emit_order.swap(i, j);
+                }
+                p.n_refs = p.ref_ids().len();
+            }
+            vec![("base".to_string(), p)]
+        }
         "C24" => vec![("base".to_string(), e3_core::pgen::gen_defer(&mut sim))],
         "C25" => {
             // reference programs: the textual order of the statements is irrelevant (access groups
